@@ -178,7 +178,8 @@ def write_text(rng, kind, fmt, G, plain=False):
     return w_matrix(rng, G, plain)
 
 
-JUNK = ['x', '1.5', '-1', '999', '0', '1e1', '', ':', '::', 'e', 'p', '1_0', '--', '\x00', '2 2']
+JUNK = ['x', '1.5', '-1', '19', '0', '1e1', '', ':', '::', 'e', 'p', '1_0', '--', '\x00', '2 2']
+MAXNUM = 24          # no number above this in any text: the formulas (and the memory of tool, library and model) stay small
 
 
 def mutate(rng, text):
@@ -211,7 +212,7 @@ def mutate(rng, text):
             if t and not ln.startswith('c') and all(x.lstrip('+').isdigit() for x in t if x not in ('p', 'edge')):
                 j = rng.choice([k for k, x in enumerate(t) if x.lstrip('+').isdigit()] or [0])
                 try:
-                    t[j] = str(max(0, int(t[j]) + rng.choice([-1, 1, 1, 2, 7])))
+                    t[j] = str(max(0, int(t[j]) + rng.choice([-1, 1, 1, 2, 5])))
                 except ValueError:
                     break
                 lines[i] = ' '.join(t)
@@ -232,13 +233,25 @@ def mutate(rng, text):
     if kind == 'reverse-tokens':
         return '\n'.join(' '.join(reversed(ln.split())) for ln in lines), kind
     if kind == 'big-vertex' and toks:
-        return text.replace(' 1 ', ' 99 ', 1) if ' 1 ' in text else text + '99 : 1 0\n', kind
+        return text.replace(' 1 ', ' 23 ', 1) if ' 1 ' in text else text + '23 : 1 0\n', kind
     if kind == 'zero-vertex':
         return text.replace(' 1 ', ' 0 ', 1) if ' 1 ' in text else text.replace('1', '0', 1), kind
     if kind == 'second-header':
         i = next((k for k, ln in enumerate(lines) if ln and not ln.startswith('c')), 0)
         return '\n'.join(lines[:i + 1] + lines[i:i + 1] + lines[i + 1:]), kind
     return text + rng.choice(['x', ' 1', '\n1 2 3', '\ne 1', '\x0c']), 'tail-junk'
+
+
+def too_big(text):
+    """does the text mention a number above MAXNUM (as Python's int() would read a token, underscores included)?"""
+    import re
+    for run in re.findall(r'[0-9][0-9_]*', text):
+        try:
+            if int(run.replace('_', '')) > MAXNUM:
+                return True
+        except ValueError:
+            return True
+    return False
 
 
 # --------------------------------------------------------------------------
@@ -375,6 +388,8 @@ def library_outcome(cnfgen, cs):
         else:
             c = cs['cmd']
             G = library_graph_text(cnfgen, c['kind'], cs['fmt'], delivered(cs))
+            if G.number_of_vertices() > 2 * MAXNUM:
+                raise P.TooBig()
             sub, a, fl = c['sub'], c['args'], set(c['flags'])
             if sub == 'kcolor':
                 F = cnfgen.GraphColoringFormula(G, a[0])
@@ -657,6 +672,15 @@ def run_files_pipeline(ctx):
         if '-of' in cs['argv']:
             cs['fmt_out'] = 'opb'
 
+    # ---- no large number in any text (a declared size drives loops and allocations in tool, library and model alike)
+    for cs in cases:
+        if any(too_big(t) for t in list(cs['files'].values()) + [cs['stdin']]):
+            cs['skip'] = True
+            ctx.tally('files skipped', 'a number above %d in the text' % MAXNUM)
+    for cs in cases:
+        if cs.get('pair') is not None and (cs.get('skip') or cs['pair'].get('skip')):
+            cs['skip'] = cs['pair']['skip'] = True
+    cases = [cs for cs in cases if not cs.get('skip')]
     # ---- the library side first (it tells which cases are too large)
     keep = []
     for cs in cases:
